@@ -1127,6 +1127,153 @@ def _judge_concat_refit(sc):
     return None
 
 
+# ---- behavioural independence of a copy, for every node class exported by reservoirpy.nodes -------------------------------
+# Byte comparisons cannot see state shared through callables (a partial bound to the node, a weak reference, a closure), so the
+# copy is compared with TWINS: objects built and trained exactly like the original, which then go through exactly the same calls.
+CLASS_KINDS = ["ipreservoir", "ipreservoir-in-model", "reservoir", "nvar", "delay", "ridge", "lms", "rls", "force", "esn", "sklearn",
+               "tanh", "softmax", "sigmoid", "input-output", "concat"]
+
+
+def _class_spec(sc):
+    """(make(tag) -> object, history(obj), advance(obj)) for one node class; everything deterministic in sc."""
+    rpy()
+    import reservoirpy.nodes as N
+    rng = core.random.Random(sc["seed"])
+    kind = sc["kind"]
+    din, dout, units = rng.randint(1, 3), rng.randint(1, 2), rng.randint(3, 6)
+    seed = rng.randrange(10 ** 6)
+    data = lambda T, d, lim=8: scen.fl(scengen.rows(rng, T, d, lim, 3))  # noqa: E731
+    X1, Y1, X2, Y2 = data(20, din), data(20, dout), data(20, din) * 2.0 + 0.5, data(20, dout)
+    fit = lambda o: o.fit(X1.copy(), Y1.copy())       # noqa: E731
+    refit = lambda o: o.fit(X2.copy(), Y2.copy())     # noqa: E731
+    run2 = lambda o: o.run(X2.copy())                 # noqa: E731
+    none = lambda o: None                             # noqa: E731
+    if kind == "ipreservoir":
+        act = rng.choice(["tanh", "sigmoid"])
+        mk = lambda t: N.IPReservoir(units, mu=0.0 if act == "tanh" else 0.25, sigma=0.25, learning_rate=float(Fraction(1, 64)), epochs=2,
+                                     activation=act, seed=seed, rc_connectivity=1.0, input_connectivity=1.0, name=t)  # noqa: E731
+        return mk, (lambda o: o.fit(X1.copy())) if sc["trained"] else (lambda o: o.initialize(X1[:1])), lambda o: o.fit(X2.copy()), din
+    if kind == "ipreservoir-in-model":
+        def mk(t):
+            ipr = N.IPReservoir(units, mu=0.0, sigma=0.25, learning_rate=float(Fraction(1, 64)), epochs=1, seed=seed, rc_connectivity=1.0,
+                                input_connectivity=1.0, name=t + "_ip")
+            return ipr >> N.Ridge(ridge=float(Fraction(1, 64)), name=t + "_rd")
+
+        def hist(m):
+            m.nodes[0].fit(X1.copy())
+            m.fit(X1.copy(), Y1.copy())
+        return mk, hist, lambda m: m.nodes[0].fit(X2.copy()), din
+    if kind == "reservoir":
+        mk = lambda t: N.Reservoir(units, lr=0.5, sr=0.9, seed=seed, rc_connectivity=1.0, input_connectivity=1.0,
+                                   equation=rng.choice(["internal", "external"]), name=t)  # noqa: E731
+        eq = rng.choice(["internal", "external"])
+        mk = lambda t: N.Reservoir(units, lr=0.5, sr=0.9, seed=seed, rc_connectivity=1.0, input_connectivity=1.0, equation=eq, name=t)  # noqa: E731
+        return mk, (lambda o: o.run(X1.copy())) if sc["trained"] else none, run2, din
+    if kind == "nvar":
+        dl, order, st = rng.randint(1, 2), rng.randint(1, 2), rng.randint(1, 2)
+        return (lambda t: N.NVAR(delay=dl, order=order, strides=st, name=t)), (lambda o: o.run(X1.copy())) if sc["trained"] else none, run2, din
+    if kind == "delay":
+        dl = rng.randint(1, 3)
+        return (lambda t: N.Delay(delay=dl, name=t)), (lambda o: o.run(X1.copy())) if sc["trained"] else none, run2, din
+    if kind == "ridge":
+        return (lambda t: N.Ridge(ridge=float(Fraction(1, 32)), name=t)), fit, refit, din
+    if kind in ("lms", "rls", "force"):
+        mk = {"lms": lambda t: N.LMS(alpha=float(Fraction(1, 16)), name=t), "rls": lambda t: N.RLS(alpha=float(Fraction(1, 4)), name=t),
+              "force": lambda t: N.FORCE(alpha=float(Fraction(1, 4)), name=t)}[kind]
+        tr = lambda o: o.train(X1.copy(), Y1.copy())  # noqa: E731
+        return mk, tr if sc["trained"] else (lambda o: o.initialize(X1[:1], Y1[:1])), lambda o: o.train(X2.copy(), Y2.copy()), din
+    if kind == "esn":
+        fbk = rng.random() < 0.5
+        mk = lambda t: N.ESN(units=units, lr=0.5, sr=0.9, ridge=float(Fraction(1, 32)), seed=seed, rc_connectivity=1.0, input_connectivity=1.0,
+                             feedback=fbk, name=t)  # noqa: E731
+        return mk, fit, refit, din
+    if kind == "sklearn":
+        from sklearn import linear_model
+        return (lambda t: N.ScikitLearnNode(model=linear_model.Ridge, model_hypers={"alpha": 0.125}, name=t)), fit, refit, din
+    if kind in ("tanh", "softmax", "sigmoid"):
+        cls = {"tanh": N.Tanh, "softmax": N.Softmax, "sigmoid": N.Sigmoid}[kind]
+        return (lambda t: cls(name=t)), (lambda o: o.run(X1.copy())) if sc["trained"] else none, run2, din
+    if kind == "input-output":
+        return (lambda t: N.Input(name=t + "_i") >> N.Output(name=t + "_o")), (lambda o: o.run(X1.copy())) if sc["trained"] else none, run2, din
+    if kind == "concat":
+        def mk(t):
+            a, b = N.Input(name=t + "_a"), N.Tanh(name=t + "_b")
+            return a >> [b, N.Sigmoid(name=t + "_c")] >> N.Ridge(ridge=float(Fraction(1, 32)), name=t + "_rd")
+        return mk, fit, refit, din
+    raise ValueError(kind)
+
+
+def _judge_class(sc):
+    mk, hist, advance, din = _class_spec(sc)
+    rng = core.random.Random(sc["seed"] + 1)
+    Xt = scen.fl(scengen.rows(rng, 6, din, 8, 3))
+    base = "cls%d_%s" % (next(_uid), sc["kind"].replace("-", ""))
+
+    def out(o):
+        return _flat(o.run(Xt.copy(), reset=True, stateful=False))
+
+    def same(a, b):
+        return a.shape == b.shape and np.allclose(a, b, rtol=1e-10, atol=1e-10)
+    objs = {}
+    for nm in ("A", "T1", "T2"):
+        ok, o = _try(lambda: mk("%s_%s" % (base, nm)))
+        if ok:
+            ok, r = _try(lambda: hist(o))
+        if not ok:
+            if sc["kind"] == "sklearn":
+                return None                                   # ScikitLearnNode does not work with the installed scikit-learn: not a copy matter
+            return _viol("run:exception", "building / training a %s raises before any copy: %s" % (sc["kind"], r if isinstance(o, object) and not isinstance(o, str) else o), sc)
+        objs[nm] = o
+    A, T1, T2 = objs["A"], objs["T1"], objs["T2"]
+    objs = None
+    ok, C = _try(lambda: _copy_by(sc["how"], A))
+    if not ok:
+        return _viol("copy:exception", "%s of a %s raises: %s" % (sc["how"], sc["kind"], C), sc, "a copy", C)
+    what = "%s copy of a%s %s" % (sc["how"], " trained" if sc["trained"] else "n untrained", sc["kind"])
+    ok, r = _try(lambda: (out(C), out(A), out(T1), out(T2)))
+    if not ok:
+        return _viol("copy:exception", "running the %s (or its original / twins) raises: %s" % (what, r), sc)
+    oC, oA, o1, o2 = r
+    if not (same(oA, o1) and same(oA, o2)):
+        return None                                       # the class is not reproducible from its seed: nothing can be compared
+    if not same(oC, oA):
+        return _viol("copy:outputs-differ", "the %s returns other outputs than the original" % what, sc, oA.tolist(), oC.tolist())
+    # the copy is trained / run further, exactly like twin 1; the original is left alone, like twin 2
+    ok, r = _try(lambda: (advance(C), advance(T1)))
+    if not ok:
+        okA, rA = _try(lambda: advance(A))
+        return _viol("copy:exception", "further training / running works on the original but raises on the %s: %s" % (what, r), sc) if okA else None
+    oC, o1, oA, o2 = out(C), out(T1), out(A), out(T2)
+    if not same(oA, o2):
+        return _viol("copy:shared-state", "further training / running the %s changed the outputs of the original" % what, sc, o2.tolist(), oA.tolist())
+    if not same(oC, o1):
+        return _viol("copy:outputs-differ", "after the same further training / run, the %s does not return what an identically built and trained twin returns "
+                     "(the copy does not own everything its outputs depend on)" % what, sc, o1.tolist(), oC.tolist())
+    # now the original, like twin 2; the copy is left alone, like twin 1
+    _try(lambda: (advance(A), advance(T2)))
+    oA, o2, oC, o1 = out(A), out(T2), out(C), out(T1)
+    if not same(oC, o1):
+        return _viol("copy:shared-state", "further training / running the original changed the outputs of its %s" % what, sc, o1.tolist(), oC.tolist())
+    if not same(oA, o2):
+        return _viol("copy:shared-state", "the original does not behave like its twin after the %s was made and trained" % what, sc, o2.tolist(), oA.tolist())
+    # the copy does not need the original to stay alive
+    A = None
+    gc.collect()
+    ok, oC = _try(lambda: out(C))
+    o1 = out(T1)
+    if not ok or not same(oC, o1):
+        return _viol("copy:shared-state", "the %s stops working / changes once the original is garbage-collected: %s" % (what, oC if not ok else "other outputs"), sc)
+    return None
+
+
+def gen_class_case(rng, i):
+    kind = CLASS_KINDS[i % len(CLASS_KINDS)]
+    k = i // len(CLASS_KINDS)
+    hows = ["deepcopy", "pickle"] + (["nodecopy"] if kind not in ("ipreservoir-in-model", "esn", "input-output", "concat") else [])
+    return {"family": "class", "kind": kind, "how": hows[k % len(hows)], "trained": (k // len(hows)) % 3 != 2 or kind in ("ridge", "sklearn", "esn", "concat"),
+            "seed": rng.randrange(10 ** 6), "tag": "cl%d" % i}
+
+
 SPECIALS = ([{"family": "online", "node": nd, "trained": tr, "how": how} for nd in ("lms", "force-rls", "force-lms") for tr in (True, False)
              for how in ("deepcopy", "pickle", "nodecopy")]
             + [{"family": "failedcopy", "copy_feedback": cf} for cf in (False, True)]
@@ -1225,6 +1372,8 @@ def _judge(sc):
         return _judge_named_esn(sc)
     if sc["family"] == "concatrefit":
         return _judge_concat_refit(sc)
+    if sc["family"] == "class":
+        return _judge_class(sc)
     if sc["family"] == "ocopy":
         return _judge_copy(sc)
     if sc["family"] == "legacy":
@@ -1269,6 +1418,15 @@ def oracle(ctx, scale=1):
                 v = _viol("oracle:exception", "the %s probe itself raised %r" % (sp["family"], e), sc)
             if v:
                 out.append(v)
+    for i in range(ctx.n(48, 480) * scale):
+        sc = gen_class_case(rng, i)
+        n += 1
+        try:
+            v = _judge_class(sc)
+        except Exception as e:  # noqa: BLE001
+            v = _viol("oracle:exception", "the class probe itself raised %r" % e, sc)
+        if v:
+            out.append(v)
     for i in range(ctx.n(10, 100) * scale):
         sc = gen_legacy_noise(rng, i)
         n += 1
